@@ -606,3 +606,38 @@ func isNilFunc(v value) bool {
 	}
 	return false
 }
+
+// ---- sort.Slice family (bodies need reflectlite.Swapper): stable insertion sort
+
+func init() {
+	sortSlice := func(fr *frame, a []value) value {
+		s, ok := a[0].(iface).v.([]value)
+		if !ok {
+			panic(unsupported("sort.Slice of %T", a[0].(iface).v))
+		}
+		less := a[1]
+		i := fr.i
+		for x := 1; x < len(s); x++ {
+			for y := x; y > 0; y-- {
+				if !fr.truth(call(i, fr, token.NoPos, less, []value{y, y - 1})) {
+					break
+				}
+				i.logStore(&s[y])
+				i.logStore(&s[y-1])
+				s[y], s[y-1] = s[y-1], s[y]
+			}
+		}
+		return nil
+	}
+	externals["sort.Slice"] = sortSlice
+	externals["sort.SliceStable"] = sortSlice
+	externals["sort.SliceIsSorted"] = func(fr *frame, a []value) value {
+		s := a[0].(iface).v.([]value)
+		for x := len(s) - 1; x > 0; x-- {
+			if fr.truth(call(fr.i, fr, token.NoPos, a[1], []value{x, x - 1})) {
+				return false
+			}
+		}
+		return true
+	}
+}
